@@ -167,6 +167,12 @@ func c09Apply(p *gen.Program, ts []c09Transform) (string, []string, string) {
 			case v%8 == 1 && !t.bq:
 				// a comment ends at the newline, whatever stands in front of it
 				lay[t.seq] = gen.GapText{Comment: fmt.Sprintf(" c%d ends in \\", k)}
+			case v%8 == 1 && t.bq:
+				// an escaped backquote does not end the substitution, in a comment or elsewhere
+				lay[t.seq] = gen.GapText{Comment: fmt.Sprintf(" c%d \\` x", k)}
+			case v%8 == 6:
+				// (two backslashes escape nothing)
+				lay[t.seq] = gen.GapText{Comment: fmt.Sprintf(" c%d \\\\", k)}
 			case v%8 == 5:
 				// a carriage-return is a character of the text like any other
 				lay[t.seq] = gen.GapText{Comment: fmt.Sprintf(" c%d ends in cr\r", k)}
